@@ -8,6 +8,7 @@ require (
 	github.com/irismod/service v0.0.0
 	github.com/tendermint/tendermint v0.34.0-rc3.0.20200907055413-3359e0bf2f84
 	github.com/tendermint/tm-db v0.6.2
+	github.com/tidwall/gjson v1.6.1
 )
 
 replace (
